@@ -190,6 +190,7 @@ class Table:
     def __init__(self, data:Union[Mapping, Sequence[Mapping], Sequence[Sequence]] = (), columns: Sequence[str] = (), indexes: Sequence[str]= ()):
         self._columns = tuple(columns) or tuple(data)
         self._lohis   = None
+        self._indexes = ()
 
         data_is_view            = isinstance(data,View)
         data_is_mapping_of_cols = isinstance(data,collections.abc.Mapping)
@@ -258,6 +259,11 @@ class Table:
                 self._data[hdr].extend(col)
 
         if self._lohis: self._lohis = {}
+
+        if self._indexes:
+            #the appended rows are not in index order so we re-sort
+            indexes,self._indexes = self._indexes,()
+            self.index(*indexes)
 
         return self
 
